@@ -78,6 +78,29 @@ def big_blobs() -> t.List[Base]:
     return _BIG
 
 
+_NESTED: t.List[Base] = []
+
+
+def nested_blobs() -> t.List[Base]:
+    """Blobs whose plaintext is itself a valid DPAPI-NG blob for the same root key (a secret that was protected twice)."""
+    if not _NESTED:
+        for k, (h_, mode, trailing) in enumerate((("SHA256", "nonce", False), ("SHA512", "nonce", True))):
+            inner = _ref_blob(h_, mode, 24, False, 80 + k)
+            hh = hashlib.sha512(f"nested/{k}".encode()).digest()
+            outer = cms.protect(inner.blob, offline.SID_A, inner.rk, POS, cek=hashlib.sha256(hh).digest(), gcm_nonce=hh[20:32], key_info_seed=hh[:32],
+                                public_key_mode=False, in_envelope=not trailing)
+            _NESTED.append(Base(f"ref/{h_}/nested/{'trailing' if trailing else 'env'}", inner.rk, outer, inner.blob, cms.parse_blob(outer)["offsets"], "ref"))
+        for b in _NESTED:
+            o, _w, _k = unprotect_stored(b, b.blob)
+            if o.kind != "ok" or o.value != b.plaintext:
+                raise common.HarnessError(f"nested base blob {b.name} does not round-trip: {o.brief()} {o.exc!r}")
+    return _NESTED
+
+
+def extra_blobs() -> t.List[Base]:
+    return big_blobs() + nested_blobs()
+
+
 def catalogue(tier: str) -> t.List[Base]:
     if tier in _CAT:
         return _CAT[tier]
@@ -102,9 +125,10 @@ def catalogue(tier: str) -> t.List[Base]:
     return out
 
 
-def unprotect_stored(base: Base, stored: bytes, with_key: bool = True, line_limit: int = 0, flavour: str = "sync", kdf_limit: int = 300):
+def unprotect_stored(base: Base, stored: bytes, with_key: bool = True, line_limit: int = 0, flavour: str = "sync", kdf_limit: int = 300, then_valid: bool = False):
     """Real ncrypt_unprotect_secret on ``stored`` with offline key material and no reachable DC.
-    -> (Outcome, world, counters)"""
+    -> (Outcome, world, counters); with ``then_valid`` the undamaged blob is unprotected afterwards on the SAME cache and that
+    outcome is returned as counters["after"]."""
     world = W.World(len(stored))
     counters = {"kdf": 0, "lines": 0}
     with world.installed(patch_entropy=False):
@@ -117,6 +141,9 @@ def unprotect_stored(base: Base, stored: bytes, with_key: bool = True, line_limi
             else:
                 out = drive.classify(lambda: offline.call_api(world, flavour, "unprotect", stored, cache=cache))
             counters["kdf"] = kb.count
+            if then_valid:
+                kb.count = 0
+                counters["after"] = drive.classify(lambda: offline.call_api(world, flavour, "unprotect", base.blob, cache=cache))
     if out.kind == "raise" and (world.connect_attempts or world.dns_queries):
         # the library went looking for a domain controller: our seam's refusal is not its error
         out = drive.Outcome("needs-network", exc=out.exc)
